@@ -254,6 +254,16 @@ def jobs(prop, tier):
                          bounds='%d updates of the referenced message with arbitrary value bytes at arbitrary clock steps of 0..2 s, availability asked after each; condition with or without value range, any range' % u, **MSG))
         J.append(Job('C13', 'history_combined_u2', 'C13_history.cpp', defs={'U': 2, 'COMBINED': None}, unwind=9, shape='R',
                      bounds='combined condition of two simple conditions on the same message, 2 updates', **MSG))
+    if prop == 'C08':
+        MSG = dict(link=['lib/ebus/message.cpp', 'lib/ebus/data.cpp', 'lib/ebus/datatype.cpp', 'lib/ebus/symbol.cpp', 'lib/ebus/result.cpp', 'lib/ebus/filereader.cpp', 'lib/ebus/contrib/contrib.cpp', 'lib/ebus/contrib/tem.cpp'],
+                   models=['string', 'libc', 'sstream', 'posix', 'containers', 'libm'], skip_ctors=['message', 'data.cpp', 'datatype', 'contrib', 'tem', 'filereader'],
+                   rtti=True, noop_containing=['_ZNSt8_Rb_tree+8_M_eraseEPSt13_Rb_tree_node'], solver=PORTFOLIO, timeout=1500 if T else 280,
+                   devirt_exclude=['_ZN5ebusd14ChainedMessage', '_ZNK5ebusd14ChainedMessage'])   # no chained message objects in this harness (checked by the slot check)
+        combos = [(1, 0, 0, 0, 1), (1, 2, 0, 0, 3), (2, 1, 2, 0, 3), (2, 2, 2, 0, 2), (2, 0, 1, 0, 2)] if not T else \
+                 [(1, a, 0, 0, n) for a in (0, 1, 4, 5, 6) for n in (a, a + 1)] + [(2, a, b, 0, n) for (a, b) in ((0, 1), (1, 2), (2, 2), (1, 4), (4, 5), (5, 5), (2, 6)) for n in (b, b + 1)] + [(3, 1, 2, 3, 3), (3, 2, 2, 2, 3)]
+        for (d_, l0, l1, l2, nn) in combos:
+            J.append(Job('C08', 'find_d%d_%d%d%d_nn%d' % (d_, l0, l1, l2, nn), 'C08_find.cpp', defs={'D': d_, 'L0': l0, 'L1': l1, 'L2': l2, 'NN': nn}, unwind=max(l0, l1, l2, nn) + 8, shape='R',
+                         bounds='%d definition(s) with ID length(s) %s and arbitrary direction, passive/active, source, destination, PB, SB, ID bytes; telegram with NN = %d and arbitrary bytes; every find flag combination' % (d_, (l0, l1, l2)[:d_], nn), **MSG))
     if prop == 'C09':
         MSG = dict(link=['lib/ebus/message.cpp', 'lib/ebus/data.cpp', 'lib/ebus/datatype.cpp', 'lib/ebus/symbol.cpp', 'lib/ebus/result.cpp', 'lib/ebus/filereader.cpp', 'lib/ebus/contrib/contrib.cpp', 'lib/ebus/contrib/tem.cpp'],
                    models=['string', 'libc', 'sstream', 'posix', 'containers', 'libm'], skip_ctors=['message', 'data.cpp', 'datatype', 'contrib', 'tem', 'filereader'],
@@ -345,6 +355,7 @@ META = {
    outside_claim='re-adding an already queued message / removal (erase from the middle of the heap), queues of more than 3 (thorough: 4) messages, 2^32 wrap of the virtual clock, message reload, BusHandler poll trigger',
    assumptions=COMMON_ASSUME + ['queue vector is heap-ordered before the step (std::priority_queue representation invariant)', 'virtual times within [clock-30, clock+priority]'],
  ),
+ 'C08': dict(claimed=False, na_reason='tbd', level_text='tbd', level_note='tbd', outside_claim='tbd', assumptions=COMMON_ASSUME),
  'C09': dict(claimed=False, na_reason='Message::prepareMaster / decodeLastData need complete Message and DataFieldSet objects (std::map<string,...> construction, beyond this encoding, DESIGN 8.2). The chained-message clause was attempted with a partially constructed ChainedMessage and a hand-set vtable pointer (harness/C09_chain.cpp: real storeLastData -> checkId -> combineLastParts over all arrival orders): the code translates and runs (30 k steps without vector growth), but combineLastParts fills LOCAL SymbolStrings by push_back in loops whose trip count is read from stored data, so every push_back site forks into the growth path; no verdict within 280 s per job even with the fixed-capacity growth model (DESIGN section 19). Not claimed.',
    level_text='n/a', level_note='n/a', outside_claim='n/a', assumptions=COMMON_ASSUME),
  'C13': dict(
